@@ -27,7 +27,7 @@ for d in sorted(glob.glob(out + "/C??/m?")):
     os.makedirs(dst, exist_ok=True)
     for f in ["patch.diff", "demo.txt", "notes.md"] + demos:
         if os.path.exists(d + "/" + f): shutil.copy(d + "/" + f, dst)
-    meta = {"id": f"{pid}-m{k}", "property": pid, "source": "independent sub-agent given only the property record and a scratch worktree (fifth round: as the fourth, with the ideas of earlier rounds excluded)",
+    meta = {"id": f"{pid}-m{k}", "property": pid, "source": "independent sub-agent given only the property record and a scratch worktree (sixth round: as the fifth)",
             "patch": "patch.diff", "demo": {"files": demos, "place_in": pkg, "run": f"go test -vet=off -count=1 ./{pkg}/"}, "checks": [pid], "needs": "see notes.md"}
     json.dump(meta, open(dst + "/meta.json", "w"), indent=1)
     print(dst, pkg, demos)
